@@ -215,7 +215,19 @@ def check(ctx):
                         and len(val.args[0].args) == 2 and ast.unparse(val.args[0].args[0]) == ast.unparse(tgt)
                         and isinstance(val.args[0].args[1], ast.Name) and val.args[0].args[1].id == v)
                 wb.append((c, good))
-    ctx.ob("C10.c", "Updater.forward: setattr(parent, p, updates_[p](getattr(parent, p)))", bool(wb) and all(g for _, g in wb),
+        # equivalent write-back through the parameter object: `x = getattr(module, p); x.data = self.updates_[p](x)`
+        # (same value for the updater algebra; whether it may bypass a masking setter is C05's concern, not C10's)
+        for st_ in ast.walk(lp):
+            if isinstance(st_, ast.Assign) and isinstance(st_.targets[0], ast.Attribute) and st_.targets[0].attr == "data" and isinstance(st_.targets[0].value, ast.Name):
+                x = st_.targets[0].value.id
+                defs = [n_.value for n_ in ast.walk(lp) if isinstance(n_, ast.Assign) and isinstance(n_.targets[0], ast.Name) and n_.targets[0].id == x]
+                val = st_.value
+                good = len(defs) == 1 and isinstance(defs[0], ast.Call) and dotted(defs[0].func) == "getattr" and len(defs[0].args) == 2 \
+                    and isinstance(defs[0].args[1], ast.Name) and defs[0].args[1].id == v \
+                    and isinstance(val, ast.Call) and isinstance(val.func, ast.Subscript) and is_self_attr(val.func.value, "updates_") \
+                    and isinstance(val.func.slice, ast.Name) and val.func.slice.id == v and val.args and isinstance(val.args[0], ast.Name) and val.args[0].id == x
+                wb.append((st_, good))
+    ctx.ob("C10.c", "Updater.forward: parent.p := updates_[p](parent.p) for each requested name", bool(wb) and all(g for _, g in wb),
            "" if wb and all(g for _, g in wb) else "write-back does not read, transform and store the same named parameter of the parent",
            fw.where)
     # default: all parameters
